@@ -337,6 +337,19 @@ class C12(core.Property):
                 feats.reverse()
             cases.append(self._case(1, feats, objs, self._client(rng, rng.choice(["empty", "max", "random", "random"])),
                                     tag="pair"))
+        # (b2) non-interference of options: every ORDERED pair of methods that both admit an options class, the
+        # first registered WITH an options object, the second WITHOUT (its capability must not pick up the other's)
+        opt_ms = [m for m in reg if isinstance(e.opt_types.get(m), list)]
+        for a in opt_ms:
+            for b in opt_ms:
+                if a == b:
+                    continue
+                objs = []
+                feats = [self._feat(rng, e, a, objs, p_opt=1.0), [b, 0]]
+                if rng.random() < 0.5:
+                    feats.reverse()
+                cases.append(self._case(1, feats, objs, self._client(rng, rng.choice(["empty", "max", "random"])),
+                                        tag="pair-opt-noopt"))
         # every pair inside one provider (primary + secondary method), all registration states
         groups = [["textDocument/completion", "completionItem/resolve"], ["textDocument/codeAction", "codeAction/resolve"],
                   ["textDocument/codeLens", "codeLens/resolve"], ["textDocument/documentLink", "documentLink/resolve"],
